@@ -1,6 +1,7 @@
 """C08 -- an insecure shared $topdir/.Trash is never used, for writing, reading or purging.
 
 E1 product: .Trash state x populated .Trash/$uid x the five commands x volume set."""
+import os
 import sys
 
 from .. import cell, scen, world
@@ -17,12 +18,12 @@ LEVEL_NOTE = 'trusted: shim mount table / psutil substitute; ownership checks of
 RULE = ('.Trash state (6) x command (put, list, restore+reply, empty, empty 0, rm *, rm exact) x volumes (v1 only; v1 insecure + v2 secure) x uid '
         '(0, 1000); non-trivial = the command examined the volume (stat of .Trash seen in the trace); distinct = outcome class x state x command')
 STATES = ['sticky', 'nonsticky', 'symlink-sticky', 'symlink-nonsticky', 'file', 'absent']
-CMDS = ['put', 'list', 'restore', 'empty', 'empty0', 'rm-star', 'rm-exact']
-VOLS = ['v1', 'v1+v2']
+CMDS = ['put', 'list', 'restore', 'empty', 'empty0', 'rm-star', 'rm-exact', 'put-then-insecure']
+VOLS = ['v1', 'v1+v2', 'v1-sticky-topdir']
 
 
 def dimensions(tier):
-    return {'state': len(STATES), 'command': len(CMDS), 'volumes': 2, 'uid': 2}
+    return {'state': len(STATES), 'command': len(CMDS), 'volumes': 3, 'uid': 2}
 
 
 def cases(tier):
@@ -45,6 +46,10 @@ def run_case(c):
     mounts = ['/', '/mnt/v1'] + (['/mnt/v2'] if c['vols'] == 'v1+v2' else [])
     W = scen.base_world(mounts=mounts, uid=uid, cwd='/mnt/v1/w')
     W.dir('/mnt/v1/w').file('/mnt/v1/w/new', 'to be trashed\n')
+    if c['vols'] == 'v1-sticky-topdir':
+        W.dir('/mnt/v1', mode=0o1777)        # the volume's top directory itself is sticky (like /tmp): irrelevant for the .Trash checks
+    alt = '/mnt/v1/.Trash-%d' % uid
+    scen.add_trashed(W, alt, 'myalt', 'w/myalt-x1', '2020-01-03T00:00:00')      # the user's own .Trash-$uid is always usable
     st = c['st']
     phys = None
     if st == 'sticky':
@@ -66,13 +71,19 @@ def run_case(c):
     argv, stdin = {'put': (['trash-put', 'new'], None), 'list': (['trash-list'], None),
                    'restore': (['trash-restore', '/'], '0\n'), 'empty': (['trash-empty'], None),
                    'empty0': (['trash-empty', '0'], None), 'rm-star': (['trash-rm', '*'], None),
-                   'rm-exact': (['trash-rm', '/mnt/v1/w/one-v1'], None)}[cmd]
+                   'rm-exact': (['trash-rm', '/mnt/v1/w/one-v1'], None), 'put-then-insecure': (None, None)}[cmd]
+    if cmd == 'put-then-insecure':
+        return run_put_then_insecure(c, W, uid, td)
     with cell.Sandbox(W.spec()) as sb:
         before = sb.snapshot()
         r = sb.run(argv, stdin=stdin, cwd='/mnt/v1/w', now='2024-06-06T06:06:06')
         after = sb.snapshot()
     secure = st == 'sticky'
     detail = {'argv': argv, 'exit': r.exit, 'out': r.out[-400:], 'err': r.err[-400:]}
+    if cmd == 'list' and 'myalt-x1' not in r.out:
+        return {'verdict': 'viol', 'sig': 'C08|own-Trash-uid-not-listed|st=%s' % st, 'klass': 'alt-not-listed', 'detail': {'out': r.out[-300:], 'err': r.err[-300:]}}
+    if cmd in ('empty', 'rm-star') and world.under(after, alt + '/files/myalt'):
+        return {'verdict': 'viol', 'sig': 'C08|own-Trash-uid-not-purged|cmd=%s|st=%s' % (cmd, st), 'klass': 'alt-not-purged', 'detail': {'err': r.err[-300:]}}
     examined = any('/mnt/v1/.Trash' in p for t in r.trace for p in t[2])
     dims = 'st=%s|cmd=%s' % (st, cmd)
     sub_b = world.under(before, '/mnt/v1/.Trash') if st not in ('symlink-sticky', 'symlink-nonsticky') else world.under(before, '/mnt/v1/.real')
@@ -111,6 +122,29 @@ def run_case(c):
         return {'verdict': 'viol', 'sig': 'C08|secure-top-not-used|cmd=%s' % cmd, 'klass': 'secure-not-used', 'nontrivial': 'notused|' + dims,
                 'detail': detail}
     return {'verdict': 'ok', 'klass': 'secure:used', 'nontrivial': 'used|' + dims, 'detail': detail}
+
+
+def run_put_then_insecure(c, W, uid, td):
+    """one `trash-put -i new new2`: .Trash is a sticky directory when the first argument is trashed and loses the sticky
+    bit (somebody runs chmod) while the command waits at the prompt for the second argument"""
+    if c['st'] != 'sticky':
+        return {'verdict': 'ok', 'klass': 'n/a', 'detail': {}}
+    W.file('/mnt/v1/w/new2', 'second\n')
+    with cell.Sandbox(W.spec()) as sb:
+        def chmod(s):
+            os.chmod(s.root + '/mnt/v1/.Trash', 0o777)
+        r = sb.run_dialogue(['trash-put', '-i', 'new', 'new2'], [(None, 'y'), (chmod, 'y')], cwd='/mnt/v1/w', now='2024-06-06T06:06:06')
+        after = sb.snapshot()
+    detail = {'exit': r.exit, 'out': r.out[-300:], 'err': r.err[-300:]}
+    first_in_top = bool(world.under(after, td + '/files/new'))
+    second_in_top = bool(world.under(after, td + '/files/new2'))
+    second_in_alt = bool(world.under(after, '/mnt/v1/.Trash-%d/files/new2' % uid))
+    if second_in_top:
+        return {'verdict': 'viol', 'sig': 'C08|used-Trash-uid-after-it-became-insecure-during-the-run', 'klass': 'stale-security-decision',
+                'nontrivial': 'toctou|viol', 'detail': detail}
+    if not (first_in_top and second_in_alt):
+        return {'verdict': 'dontcare', 'klass': 'put-then-insecure:other', 'detail': detail}
+    return {'verdict': 'ok', 'klass': 'put-then-insecure:rechecked', 'nontrivial': 'toctou|ok', 'detail': detail}
 
 
 def main(tier, seed):
